@@ -1244,7 +1244,15 @@ def main():
          None, 'stdout-bytes:loop-or-routine'),
         ('define f begin print 1 return 2 end\nprint [f]\nprintf "{} {}" [f] [f]\n',
          '1 2 1 1 2 2\n', 'stdout-bytes:loop-or-routine'),
-        # compound field names and fields nested in format specs (defects repaired in c8b9962)
+        # a later value of a printf is a call to a routine that runs a printf of its own while the
+        # statement's earlier values are pending: each printf takes exactly its own values
+        ('define twice with x begin printf "[twice {}]" x return {x * 2} end\n'
+         'printf "{} -> {}" 1 [twice 21]\n', '[twice 21] 1 -> 42\n', 'stdout-bytes:loop-or-routine'),
+        ('define g with a b begin printf "({} {})" a b return {a + b} end\n'
+         'printf "{} {} {}" 1 [g 2 3] [g [g 4 5] 6]\n', '(2 3) (4 5) (9 6) 1 5 15\n',
+         'stdout-bytes:loop-or-routine'),
+        ('define h with x begin printf "<{x}>" return x end\nassign y 9\nprintf "{} {y} {}" 1 [h 2]\n',
+         '<2> 1 9 2\n', 'stdout-bytes:loop-or-routine'),
         ('printf "{:>{}}|" 5 6\n', '     5|\n', 'printf-nested-field'),
         ('assign w 6\nprintf "{:>{w}}|" 5\n', '     5|\n', 'printf-nested-field'),
         ('assign x 5\nprintf "{x.real}|{x.imag}"\n', '5|0\n', 'printf-compound-field-name'),
